@@ -297,7 +297,7 @@ def run_chunk(chunk, ctx):
             col.add_witness(dict(name=name, text=SymStr(items).concretize(ex.model()), props=sorted(props)), conc(res))
 
     left = max(1.0, min(ctx.get("chunk_time", 60), ctx["deadline"] - time.time()))
-    ex.explore(body, on_path=on_path, max_time=left, path_alarm=ctx.get("alarm", 8.0))
+    ex.explore(body, on_path=on_path, max_time=left, path_alarm=ctx.get("alarm", 8.0), max_paths=ctx.get("max_paths"))
     res = col.finish(limit=15)
     res["stats"] = ex.stats()
     return res
